@@ -688,6 +688,31 @@ def gen_program(rng, kind="scripted", reentrant=None, max_calls=4, ops=None):
     return dict(nw=nw, nh=nh, kind=kind, scripts=scripts, threads=threads, cbs=cbs)
 
 
+def gen_cohandler_program(rng):
+    """Directed family: 2-3 handlers registered for ONE watch (through equal-but-not-identical schedule() calls), several
+    events queued for it, and one handler removing things from inside its callback (unschedule / unschedule_all / stop /
+    remove of a co-handler) - the in-flight event must not reach the handlers that the call removed."""
+    nh = rng.randint(2, 3)
+    nw = rng.randint(1, 2)
+    pre = [["schedule", h, 0] for h in range(nh)]
+    if nw == 2:
+        pre.append(["schedule", rng.randrange(nh), 1])
+    pre.insert(rng.randint(0, len(pre)), ["start"])
+    scripts = {"0": [0, 1, 2][: rng.randint(2, 3)]}
+    if nw == 2:
+        scripts["1"] = [7, 8][: rng.randint(1, 2)]
+    actor = rng.randrange(nh)
+    other = rng.choice([h for h in range(nh) if h != actor])
+    op = rng.choice([["unschedule", 0], ["unschedule_all"], ["stop"], ["remove", other, 0], ["unschedule", 0]])
+    k = rng.randint(0, 1)
+    cb = [[] for _ in range(k + 1)]
+    cb[k] = [op] + ([["schedule", other, 0]] if rng.random() < 0.25 and op[0] != "stop" else [])
+    threads = [pre]
+    if rng.random() < 0.4:
+        threads.append([["pause"], rng.choice([["add", other, 0], ["unschedule", nw - 1], ["remove", actor, 0]])])
+    return dict(nw=nw, nh=nh, kind="scripted", scripts=scripts, threads=threads, cbs={str(actor): cb})
+
+
 def order_programs(maxlen, from_callback=False):
     """Every order of start/schedule/unschedule/unschedule_all/stop of length <= maxlen (1 watch, 1 handler)."""
     ops = [["start"], ["schedule", 0, 0], ["unschedule", 0], ["unschedule_all"], ["stop"]]
